@@ -474,6 +474,7 @@ pub fn run_c08(out: &mut Out, tier: &str, seed: u64) {
     }
     out.notes.insert("partitions_checked_on_implementation".into(), json!(count));
     crate::objapi::generichash_vec_keys(out, &mut rng);
+    crate::objapi::generichash_edge_keys(out, &mut rng);
     crate::objapi::long_inputs(out, &mut rng, false);
     // output buffers of every admissible and inadmissible length at finalisation (empty, shorter, longer than asked at init, longer than 64)
     for outlen in [16usize, 32, 64] {
